@@ -28,7 +28,9 @@ RULE = ("texts with non-integers (fractions, exponents, numeric strings, commas 
         "size with len<-1, utf8, memory by failing duplocale/newlocale) and a fixed table of every argument shape of a call/feed "
         "(len==0 chunks first/between/last/alone/repeated, empty C string, calls after success, after error+reset, explicit resets), "
         "random call histories over slices, mutated texts, random chunkings/flags/depths; trees with "
-        "finite doubles of every %.17g shape, NaN/Infinity, retained-text doubles x serializer flags; numeric strings for "
+        "finite doubles of every %.17g shape, NaN/Infinity, retained-text doubles x serializer flags x serializer configurations (custom "
+        "double format set globally / per thread / per object, json_object_set_double, resets to the default: a fixed table of 26 formats "
+        "x 6 ways + random combinations); numeric strings for "
         "json_object_get_double.  Each case runs under C / global comma / per-thread comma in one line.  Non-trivial = the data "
         "contains a non-integer or the outcome is not success; distinct by script line")
 TRUSTED = ["Coq 8.16.1 kernel (coqc; vm_compute over the regenerated exit list), no axioms",
@@ -65,7 +67,52 @@ LOCNAME = "xx_COMMA"
 STRICT, TRAILING, UTF8 = 1, 2, 16
 SER_FLAGS = [0, 1, 2, 4, 2 | 4, 1 | 4, 2 | 8, 16, 32 | 2, 1 | 2 | 4 | 16]
 
-STATE = dict(translator=None, outcomes={}, adjacent=[], sep_checked=0, table_mismatch=[], oracle_checked=0, empty_calls=0)
+# double formats a caller can put in effect (one floating conversion, literal text without ',' and without a '.'
+# before the number: the class covered by C14_ser_fmt_locale_indep)
+FORMATS = [b"%.17g", b"%g", b"%G", b"%e", b"%E", b"%f", b"%.0f", b"%.1f", b"%.3f", b"%.15g", b"%.20g", b"%10.3f", b"%-12.4f|", b"%+.2f",
+           b"% .3f", b"%#g", b"%#.0f", b"%08.2f", b"%.30f", b"%.120f", b"%a", b"x%.2fy", b"%.3f%%", b"%.1f.5", b"%5.0f", b"%.2e"]
+# formats outside that class (a literal ',' of their own / a literal '.' before the number): observed, gated by the flag below
+EXOTIC_FORMATS = [b"x,%.2f", b"%.2f,%%", b"v.%.1f", b"%.1f,%.1f"]
+EXOTIC_FORMAT_IN_SCOPE = False   # see extra_coverage(): adjacent observation `serialize-format-literal-separator`
+
+
+def format_is_exotic(fmt):
+    import re
+    m = re.search(rb"%[-+ #0']*\d*(?:\.\d+)?[feEgGaA]", fmt)
+    lit = re.sub(rb"%[-+ #0']*\d*(?:\.\d+)?[feEgGaA]|%%", b"\0", fmt)
+    before = fmt[:m.start()] if m else fmt
+    return b"," in lit or b"." in before
+
+
+def cfg_formats(cfg):
+    """the formats named in a serializer configuration"""
+    out = []
+    for it in (cfg or "-").split(","):
+        if it and it[0] in "GTO" and it[1:] not in ("0", ""):
+            try:
+                out.append(bytes.fromhex(it[1:]))
+            except ValueError:
+                pass
+    return out
+
+
+def ser_cfg(rng, exotic=False):
+    """a serializer configuration: global / per-thread / per-object double format, set_double, resets"""
+    def f():
+        return hx(rng.choice(EXOTIC_FORMATS if exotic else FORMATS))
+    shape = rng.choice(["G", "T", "O", "GT", "TG", "GO", "TO", "GD", "TD", "OD", "DO", "D", "G0", "T0G", "GTO", "O0G"])
+    items = []
+    for ch in shape:
+        if ch == "0":
+            items.append(items.pop()[0] + "0")
+        elif ch == "D":
+            items.append("D")
+        else:
+            items.append(ch + f())
+    return ",".join(items)
+
+
+STATE = dict(translator=None, outcomes={}, adjacent=[], sep_checked=0, table_mismatch=[], oracle_checked=0, empty_calls=0, exotic=[], ser_cfgs=0)
 
 
 def ensure_locale():
@@ -293,6 +340,17 @@ def gen(rng, tier):
     for t in fixed_trees:
         for fl in SER_FLAGS:
             out.append(("loc S %s %d" % (t, fl), {"kind": "ser-fixed"}))
+    # 3b. every way to put a custom double format in effect x every format of the table (PRNG-independent)
+    cfg_tree = "[d3ff8000000000000,d40c81cd000000000,dbfd0000000000000,d4008000000000000,d3ff8000000000000:312e35,d7ff0000000000000,{61=d3e45798ee2308c3a}]"
+    for f in FORMATS:
+        for cfg in ("G" + hx(f), "T" + hx(f), "O" + hx(f), "G" + hx(b"%.1f") + ",T" + hx(f), "O" + hx(f) + ",D", "G" + hx(f) + ",D"):
+            for fl in (0, 4):
+                out.append(("loc S %s %d %s" % (cfg_tree, fl, cfg), {"kind": "ser-format-table"}))
+    for cfg in ("D", "G0", "T0", "G" + hx(b"%.3f") + ",G0", "T" + hx(b"%.3f") + ",T0,D", "O" + hx(b"%.3f") + ",O0"):
+        out.append(("loc S %s 0 %s" % (cfg_tree, cfg), {"kind": "ser-format-table"}))
+    for f in EXOTIC_FORMATS:
+        for w in "GTO":
+            out.append(("loc S %s 0 %s" % (cfg_tree, w + hx(f)), {"kind": "ser-format-exotic"}))
     # 4. numeric strings through json_object_get_double
     for s in NUMERIC_STRINGS:
         out.append(("loc G %s" % hx(s), {"kind": "getdouble-string"}))
@@ -319,7 +377,10 @@ def gen(rng, tier):
             out.append((pline(text, fl, rng.choice([32, 2, 3]), ch, rng.choice([0, 0, 0, 0, 1, 2])), {"kind": "parse-mutated" + ("-history" if ch[0] == "h" else "")}))
         elif r < 0.95:
             t = gen_double_tree(rng)
-            out.append(("loc S %s %d" % (jvtext.dump(t), rng.choice(SER_FLAGS)), {"kind": "ser-tree"}))
+            if rng.random() < 0.4:
+                out.append(("loc S %s %d %s" % (jvtext.dump(t), rng.choice(SER_FLAGS), ser_cfg(rng)), {"kind": "ser-tree-format"}))
+            else:
+                out.append(("loc S %s %d" % (jvtext.dump(t), rng.choice(SER_FLAGS)), {"kind": "ser-tree"}))
             oracle_bits.update(b for b in double_leaves(t) if (b >> 52) & 0x7ff != 0x7ff)
         else:
             s = rng.choice(NUMERIC_STRINGS) if rng.random() < 0.3 else jsongen.gen_frac_token(rng).replace(b".", rng.choice([b".", b","]))
@@ -389,6 +450,8 @@ def oracle(line, meta, impl):
     if extra:
         return ("leak", "driver reports: " + " | ".join(extra)[:100])
     c = modes["C"]["data"]
+    if op == "S" and len(line.split(" ")) > 4 and line.split(" ")[4] != "-":
+        STATE["ser_cfgs"] += 1
     if op == "P":
         for e in c[0].split(","):
             if e != "reset":
@@ -419,6 +482,16 @@ def oracle(line, meta, impl):
             return ("parse-locale-dependent", "parse result under %s differs from the C locale: %s vs %s" % (
                 names[m], " ".join(modes[m]["data"])[:120], " ".join(c)[:120]))
         if op == "S":
+            tk = line.split(" ")
+            fmts = cfg_formats(tk[4] if len(tk) > 4 else "-")
+            if any(format_is_exotic(f) for f in fmts):
+                if len(STATE["exotic"]) < 6:
+                    STATE["exotic"].append(dict(script=line, formats=[f.decode("latin-1") for f in fmts],
+                                                C=bytes.fromhex(c[0]).decode("latin-1")[:60], comma=bytes.fromhex(modes[m]["data"][0]).decode("latin-1")[:60]))
+                if EXOTIC_FORMAT_IN_SCOPE:
+                    return ("serialize-format-literal-separator", "custom double format with a literal separator: text under %s %r vs C locale %r" % (
+                        names[m], bytes.fromhex(modes[m]["data"][0])[:60], bytes.fromhex(c[0])[:60]))
+                return None
             return ("serialize-locale-dependent", "serialized text under %s differs from the C locale: %s vs %s" % (
                 names[m], bytes.fromhex(modes[m]["data"][0])[:80] if modes[m]["data"][0] not in ("-", "NULL") else modes[m]["data"][0],
                 bytes.fromhex(c[0])[:80] if c[0] not in ("-", "NULL") else c[0]))
@@ -533,11 +606,15 @@ def shrink(ck, line, cls):
         # try the double leaves one by one
         import re
         for leaf in re.findall(r"d[0-9a-f]{16}(?::[0-9a-f]+|:-)?", t[2]):
-            l = "loc S %s %s" % (leaf, t[3])
-            m, c, _ = ck.run_pair([l], "shrink")
-            v = oracle(l, {}, c.get(1, "MISSING"))
-            if v is not None and v[0] == cls:
-                return l
+            cfg = t[4] if len(t) > 4 else "-"
+            items = cfg.split(",")
+            cands = ["-"] + items + [cfg] if cfg != "-" else ["-"]
+            for cf in cands:            # no configuration, then each single item, then the whole configuration
+                l = "loc S %s %s%s" % (leaf, t[3], "" if cf == "-" else " " + cf)
+                m, c, _ = ck.run_pair([l], "shrink")
+                v = oracle(l, {}, c.get(1, "MISSING"))
+                if v is not None and v[0] == cls:
+                    return l
     return line
 
 
@@ -550,6 +627,8 @@ def search(rng, broken_lines):
                 out.append((pline(text, f, d, ch, 0), {"kind": "search"}))
         for fault in (1, 2):
             out.append((pline(text, fl, depth, ch, fault), {"kind": "search"}))
+    for _ in range(300):
+        out.append(("loc S %s %d %s" % (jvtext.dump(gen_double_tree(rng)), rng.choice(SER_FLAGS), ser_cfg(rng)), {"kind": "search-format"}))
     for _ in range(400):
         text = num_text(rng)
         out.append((pline(text, rng.choice([0, STRICT, UTF8]), rng.choice([32, 2]), history_spec(rng, len(text)), 0), {"kind": "search-history"}))
@@ -564,6 +643,14 @@ def extra_coverage():
                 cases_with_comma_locale_verified_in_effect=STATE["sep_checked"],
                 snprintf_oracle_hypothesis_checked_on=STATE["oracle_checked"],
                 parse_calls_with_len_0=STATE["empty_calls"],
+                serialize_cases_with_custom_format=STATE["ser_cfgs"],
+                adjacent_observation_formats=dict(
+                    what="a custom double format with a literal ',' of its own (or a literal '.' before the number), e.g. \"x,%.2f\": the fix-up "
+                         "replaces the FIRST comma, i.e. the literal one, in every locale, so the decimal comma of a comma locale survives "
+                         "(C: x.1.50, comma: x.1,50).  Such a format prints no JSON number in any locale and is outside the hypothesis of "
+                         "C14_ser_fmt_locale_indep (Coq witness: C14_ser_fmt_literal_comma_dependent); recorded, not reported "
+                         "(EXOTIC_FORMAT_IN_SCOPE=False; class id serialize-format-literal-separator)",
+                    samples=STATE["exotic"]),
                 outcome_table_mismatches=STATE["table_mismatch"][:5],
                 adjacent_observation=dict(
                     what="json_object_get_double() on a string object calls strtod in the CALLER's numeric locale: under a comma locale "
